@@ -114,6 +114,21 @@ class C:
         if name not in ('h5', 'hdf5'):
             raise ValueError(name)
 """),
+    ("NamedTuple result", """
+from typing import NamedTuple
+class SD(NamedTuple):
+    spacing: float
+    direction: bool
+def _h(x) -> SD:
+    return SD(spacing=x + 1, direction=x > 0)
+def a(self, x):
+    self.s = x + 1
+    self.d = x > 0
+def b(self, x):
+    r = SD(x + 1, direction=x > 0)
+    self.s = r.spacing
+    self.d = r[1]
+"""),
     ("comparison orientation", """
 def a(self, n):
     if 3 < n:
